@@ -229,6 +229,15 @@ def streams(rng, tier):
                 writes = [[rng.randrange(n), rng.choice(pool)] for _ in range(rng.choice([2, 4, 6]))]
                 cs.append({"op": "bc", "ty": ty, "attr": name, "vals": vals, "writes": writes})
     out.append(("broadcast-history", cs))
+    # the same cases on "lived-in" operands (values.lived_in): vectors that were read in every way and then
+    # rewritten in place until they hold the case's values
+    lived = []
+    for name, cases in out:
+        cand = [c for c in cases if c.get("op") in ("bin", "un", "bc") and "writes" not in c
+                and len(c.get("a") or c.get("vals") or []) >= 2]
+        for c in rng.sample(cand, min(len(cand), 250 if not thorough else 2500)):
+            lived.append(dict(c, lived=rng.randrange(1 << 30)))
+    out.append(("lived-in", lived))
     return [(name, _dedupe(cases)) for name, cases in out]
 
 
@@ -341,7 +350,16 @@ class _Intern:
         return x is None or f"{type(x).__module__}.{type(x).__qualname__}:{x!r}" in self.ids
 
 
+_LIVED = None          # set per case by observe(): a seed -> operands are "lived-in" vectors (values.lived_in)
+
+
 def _mkvec(vals, adt):
+    if _LIVED is not None and len(vals) >= 2:
+        return V.lived_in(lambda xs: _mkvec_fresh(xs, adt), list(vals), _LIVED)
+    return _mkvec_fresh(vals, adt)
+
+
+def _mkvec_fresh(vals, adt):
     import datetime as dt
     import decimal
     import fractions
@@ -663,8 +681,14 @@ def _obs_bc(case):
 
 
 def observe(case):
+    global _LIVED
+    _LIVED = case.get("lived")
+    before = V.LIVED_REALISED[0]
     try:
-        return {"bin": _obs_bin, "un": _obs_un, "tab": _obs_tab, "bc": _obs_bc}[case["op"]](case)
+        o = {"bin": _obs_bin, "un": _obs_un, "tab": _obs_tab, "bc": _obs_bc}[case["op"]](case)
+        if _LIVED is not None:
+            o["lived_ok"] = V.LIVED_REALISED[0] > before
+        return o
     except Exception as e:                                   # the observer itself must never raise
         return {"broken": f"{type(e).__name__}: {e}"[:200]}
 
@@ -836,6 +860,8 @@ def nontrivial(case, obs):
 
 
 def describe(case, obs, stream):
+    if "lived" in case:
+        return ["lived-in:" + ("history realised" if obs.get("lived_ok") else "fell back to a fresh vector")]
     if "skip" in obs:
         return [f"{stream}:skipped"]
     tail = "exc" if "exc" in obs else ("undefined" if obs.get("ref") == "undefined" else
